@@ -19,6 +19,12 @@ func (e conditionMapParseError) Error() string {
 	return e.Message + fmt.Sprintf(" in line %d", e.LineNumber)
 }
 
+// ValidateConditionMapAnnotation checks that the condition-map annotation of the given object can be parsed.
+func ValidateConditionMapAnnotation(obj *unstructured.Unstructured) error {
+	_, err := parseConditionMapAnnotation(obj)
+	return err
+}
+
 func parseConditionMapAnnotation(obj *unstructured.Unstructured) ([]corev1alpha1.ConditionMapping, error) {
 	conditionMapAnnotation, ok := obj.GetAnnotations()[manifestsv1alpha1.PackageConditionMapAnnotation]
 	if !ok {
